@@ -816,9 +816,9 @@ Lemma combine_map2 {A B C} (f : A -> B) (g : A -> C) l :
   combine (map f l) (map g l) = map (fun x => (f x, g x)) l.
 Proof. induction l as [|a l IH]; cbn; [reflexivity|now rewrite IH]. Qed.
 
-Lemma model_monitor i : C04.monitor i (C04.model i) = true.
+Lemma model_monitor1 i : C04.monitor1 i (C04.model i) = true.
 Proof.
-  unfold C04.monitor, C04.model.
+  unfold C04.monitor1, C04.model.
   set (cfg := cfg_of i). set (ops := i_ops i).
   destruct (sched_exec cfg ops) as [H1 H2 H3].
   pose proof (erecvs_exec cfg ops) as HE.
@@ -992,9 +992,9 @@ Lemma Forall2_imp {A B} (P Q : A -> B -> Prop) l1 l2 :
   (forall a b, P a b -> Q a b) -> Forall2 P l1 l2 -> Forall2 Q l1 l2.
 Proof. intros H. induction 1; constructor; auto. Qed.
 
-Lemma monitor_spec i o : C04.monitor i o = true <-> spec i o.
+Lemma monitor1_spec i o : C04.monitor1 i o = true <-> spec i o.
 Proof.
-  unfold C04.monitor, spec. destruct o as [l|e|].
+  unfold C04.monitor1, spec. destruct o as [l|e|].
   - rewrite (forallb_combine_Forall2 (fun x => conn_sound i (fst x) (snd (snd x)))). cbn [fst snd].
     split.
     + intros H. exists l. split; [reflexivity|].
@@ -1012,7 +1012,7 @@ Example monitor_is_per_connection :
   let i := mkInput 0 [(idA, true); (idB, true)]
              [OConnect idA 2; OConnect idB 2; OConnect idB 2; OSend 0 (4 :: idB ++ [1; 9])] in
   let o := Ok [(true, []); (true, [OD idA 1 None [9]]); (true, [OD idA 1 None [9]])] in
-  length (dsends i) = 1%nat /\ C04.monitor i o = true /\ C04.agree i o = false.
+  length (dsends i) = 1%nat /\ C04.monitor1 i o = true /\ C04.agree i o = false.
 Proof. vm_compute. repeat split. Qed.
 
 (* ------------------------------------------------------------------ across the connections of one id *)
@@ -1286,9 +1286,9 @@ Qed.
    key table of the case lists the ids of its connections (the harness builds it so),
    [agree] and [monitor] together give the bound for every sender *)
 Lemma monitor_cross_once_unconnected i l src :
-  C04.monitor i (Ok l) = true -> ~ In src (conn_ids (i_ops i)) -> cross_once i src l.
+  C04.monitor1 i (Ok l) = true -> ~ In src (conn_ids (i_ops i)) -> cross_once i src l.
 Proof.
-  intros Hm Hn dst d. apply monitor_spec in Hm as (l' & E & HF). injection E as <-.
+  intros Hm Hn dst d. apply monitor1_spec in Hm as (l' & E & HF). injection E as <-.
   assert (HZ : Forall2 (fun (_ : bytes) x => count (frame_of src d) (snd x) = 0%nat) (conn_ids (i_ops i)) l).
   { eapply Forall2_imp; [|exact HF]. cbn beta. intros id x Hx.
     rewrite count_from_src. destruct (Hx src) as (ds & S & ->).
@@ -1300,7 +1300,7 @@ Proof.
 Qed.
 
 Lemma judge_cross_once i o :
-  C04.agree i o = true -> C04.monitor i o = true ->
+  C04.agree i o = true -> C04.monitor1 i o = true ->
   (forall id, In id (conn_ids (i_ops i)) -> In id (map fst (i_keys i))) ->
   exists l, o = Ok l /\ forall src, cross_once i src l.
 Proof.
@@ -1330,3 +1330,147 @@ Example queue_full_drops :
                      ERecv 0 (4 :: idB ++ [0; 4]); ERecv 0 (4 :: idB ++ [0; 5])] in
   option_map (fun c => map (fun p => d_data (p_dg p)) (c_pq c)) (getc s 1) = Some [[1]; [2]; [3]; [4]].
 Proof. vm_compute. reflexivity. Qed.
+
+(* ------------------------------------------------------------------ only on the ACTIVE connection *)
+(* the routing history of a trace: [routes cfg t] lists, in trace order, for every datagram
+   frame read from a running connection while its destination had a registry entry, the
+   entry's active connection at that moment together with (authenticated sender, datagram) *)
+Lemma routes_from_app cfg : forall t1 s t2,
+  routes_from cfg s (t1 ++ t2) = routes_from cfg s t1 ++ routes_from cfg (run_from cfg s t1) t2.
+Proof.
+  induction t1 as [|a t1 IH]; intros s t2; cbn [app routes_from]; [reflexivity|].
+  rewrite IH, <- app_assoc. reflexivity.
+Qed.
+
+Lemma routes_snoc cfg t e : routes cfg (t ++ [e]) = routes cfg t ++ route_of cfg (run cfg t) e.
+Proof. unfold routes. rewrite routes_from_app. cbn [routes_from]. rewrite app_nil_r. reflexivity. Qed.
+
+Lemma to_conn_app k a b : to_conn k (a ++ b) = to_conn k a ++ to_conn k b.
+Proof. unfold to_conn. now rewrite filter_app, map_app. Qed.
+
+(* what a connection was given (delivered ++ still queued) is a sublist of what the trace
+   routed to THIS connection number, i.e. of the sends accepted while it was the active
+   connection of its endpoint id *)
+Definition kinv2 (cfg : cfg) (t : list event) (s : state) : Prop :=
+  forall k c, getc s k = Some c -> sublist (held c) (to_conn k (routes cfg t)).
+
+Lemma kinv2_run cfg t : kinv2 cfg t (run cfg t).
+Proof.
+  induction t as [|e t IH] using rev_ind.
+  - intros k c. unfold getc, run, run_from, init. cbn. destruct (N.to_nat k); discriminate.
+  - rewrite run_snoc. set (s := run cfg t) in *. intros k c' Hg.
+    rewrite routes_snoc, to_conn_app. fold s.
+    destruct (step_srel cfg s e k c' Hg) as [(c & Hc & Hrel)|(Hnone & Hq & Ho)].
+    + specialize (IH k c Hc).
+      destruct Hrel as [(E1 & E2 & E3)|y Hy E1 E2 E3|k' raw cs dst d en He Hk' Hph Hd Hf Hact E1 E2 E3
+                       |p q Hq E2 E3 E1|p q Hq E2 E3 E1].
+      * unfold held. rewrite E2, E3. apply sublist_app_r. exact IH.
+      * unfold held. rewrite E2, E3, out_pkts_app.
+        assert (out_pkts [y] = []) as -> by (destruct y; try reflexivity; exfalso; eapply Hy; reflexivity).
+        rewrite app_nil_r. apply sublist_app_r. exact IH.
+      * unfold held. rewrite E2, E3, app_assoc, map_app. cbn [map p_src p_dg].
+        assert (Hlast : to_conn k (route_of cfg s e) = [(c_id cs, d)]).
+        { subst e. cbn [route_of]. rewrite Hk'. unfold is_running. rewrite Hph, Hd, Hf.
+          unfold to_conn. cbn [filter fst]. rewrite Hact, N.eqb_refl. reflexivity. }
+        rewrite Hlast. apply sublist_app2; [exact IH|apply sublist_refl].
+      * unfold held. rewrite E2, E3, out_pkts_app. cbn [out_pkts]. rewrite <- app_assoc. cbn [app].
+        rewrite <- Hq. apply sublist_app_r. exact IH.
+      * unfold held. rewrite E2, E3.
+        eapply sublist_trans; [|apply sublist_app_r; exact IH].
+        unfold held. rewrite Hq. apply sublist_map. apply sublist_remove_mid.
+    + unfold held. rewrite Hq, Ho. constructor.
+Qed.
+
+Lemma in_combine_seq {A} : forall (l : list A) n k x,
+  In (k, x) (combine (map N.of_nat (seq n (length l))) l) <->
+  exists j, k = N.of_nat (n + j) /\ nth_error l j = Some x.
+Proof.
+  induction l as [|a l IH]; intros n k x; cbn [length seq map combine In].
+  - split; [contradiction|]. intros (j & _ & H). destruct j; discriminate.
+  - rewrite IH. split.
+    + intros [E|(j & -> & H)].
+      * injection E as <- <-. exists 0%nat. split; [f_equal; lia|reflexivity].
+      * exists (S j). split; [f_equal; lia|exact H].
+    + intros ([|j] & -> & H).
+      * left. cbn in H. injection H as <-. f_equal. f_equal. lia.
+      * right. exists j. split; [f_equal; lia|exact H].
+Qed.
+
+Lemma in_combine_indices {A} (l : list A) k x :
+  In (k, x) (combine (indices l) l) <-> exists j, k = N.of_nat j /\ nth_error l j = Some x.
+Proof. unfold indices. rewrite in_combine_seq. reflexivity. Qed.
+
+Lemma model_monitor2 i : C04.monitor2 i (C04.model i) = true.
+Proof.
+  unfold C04.monitor2, C04.model, trace_of.
+  set (cfg := cfg_of i). set (ops := i_ops i).
+  destruct (sched_exec cfg ops) as [H1 H2 H3].
+  set (sF := fst (exec cfg ops)) in *. set (t := rev (snd (exec cfg ops))) in *.
+  cbv zeta. unfold observe. apply forallb_forall. intros [k [alive fs]] Hin.
+  apply in_combine_indices in Hin as (j & -> & Hn).
+  rewrite nth_error_map in Hn. destruct (nth_error (conns sF) j) as [c|] eqn:Hc; [|discriminate].
+  cbn [option_map] in Hn. injection Hn as <- <-.
+  assert (Hg : getc sF (N.of_nat j) = Some c) by (unfold getc; now rewrite Nat2N.id).
+  rewrite H1 in Hg. pose proof (kinv2_run cfg t _ _ Hg) as HK.
+  apply forallb_forall. intros src _. cbn [fst snd].
+  apply emb_subseq. unfold conn_routed.
+  rewrite from_src_filter, obs_out_held, filter_map_obs_pair.
+  apply sublist_emb. apply sublist_filter.
+  eapply sublist_trans; [|exact HK]. unfold held. rewrite map_app. apply sublist_app_r, sublist_refl.
+Qed.
+
+Lemma model_monitor i : C04.monitor i (C04.model i) = true.
+Proof. unfold C04.monitor. now rewrite model_monitor1, model_monitor2. Qed.
+
+(* [monitor2], readably: the run was observed, and on connection NUMBER k, for every sender
+   id [src] of the case, the datagram frames naming [src] are exactly the frames of a sublist
+   (order kept, each send used at most once) of the datagrams of [src] that the script's
+   registry history routed to connection k - the sends accepted while k was the ACTIVE
+   connection of its endpoint.  A frame on an inactive duplicate has no such send. *)
+Definition spec2 (i : input) (o : output) : Prop :=
+  exists l, o = Ok l /\
+    forall k x, nth_error l k = Some x -> forall src, In src (conn_ids (i_ops i)) ->
+      exists ds, sublist ds (conn_routed (routes (cfg_of i) (trace_of i)) (N.of_nat k) src) /\
+                 filter (from_src src) (snd x) = map (frame_of src) ds.
+
+Lemma monitor2_spec i o : C04.monitor2 i o = true <-> spec2 i o.
+Proof.
+  unfold C04.monitor2, spec2. destruct o as [l|e|].
+  - cbv zeta. rewrite forallb_forall. split.
+    + intros H. exists l. split; [reflexivity|]. intros k x Hn src Hs.
+      assert (Hin : In (N.of_nat k, x) (combine (indices l) l)) by (apply in_combine_indices; eauto).
+      specialize (H _ Hin). cbn [fst snd] in H. rewrite forallb_forall in H. specialize (H src Hs).
+      apply subseq_emb in H. apply (emb_sublist src) in H; [exact H|].
+      apply Forall_forall. intros f Hf. apply filter_In in Hf. tauto.
+    + intros (l' & E & H). injection E as <-. intros [k x] Hin.
+      apply in_combine_indices in Hin as (j & -> & Hn). apply forallb_forall. intros src Hs.
+      destruct (H j x Hn src Hs) as (ds & S & E). cbn [fst snd]. rewrite E.
+      apply emb_subseq, sublist_emb_frames, S.
+  - split; [discriminate|]. intros (l' & E & _). discriminate.
+  - split; [discriminate|]. intros (l' & E & _). discriminate.
+Qed.
+
+Lemma monitor_spec i o : C04.monitor i o = true <-> spec i o /\ spec2 i o.
+Proof. unfold C04.monitor. rewrite andb_true_iff, monitor1_spec, monitor2_spec. reflexivity. Qed.
+
+(* the observation that the per-connection clause lets through (one send, the frame on both
+   sockets of a twice-connected id) is refused by the active-connection clause: connection 1
+   was not B's active connection when the send was accepted *)
+Example monitor_rejects_inactive_delivery :
+  let i := mkInput 0 [(idA, true); (idB, true)]
+             [OConnect idA 2; OConnect idB 2; OConnect idB 2; OSend 0 (4 :: idB ++ [1; 9])] in
+  let o := Ok [(true, []); (true, [OD idA 1 None [9]]); (true, [OD idA 1 None [9]])] in
+  let o' := Ok [(true, []); (true, [OD idA 1 None [9]]); (true, [])] in
+  C04.monitor1 i o = true /\ C04.monitor i o = false /\
+  C04.monitor1 i o' = true /\ C04.monitor i o' = false /\
+  to_conn 2 (routes (cfg_of i) (trace_of i)) = [(idA, mkDg 1 None [9])] /\
+  to_conn 1 (routes (cfg_of i) (trace_of i)) = [].
+Proof. vm_compute. repeat split. Qed.
+
+Lemma judge_cross_once' i o :
+  C04.agree i o = true -> C04.monitor i o = true ->
+  (forall id, In id (conn_ids (i_ops i)) -> In id (map fst (i_keys i))) ->
+  exists l, o = Ok l /\ forall src, cross_once i src l.
+Proof.
+  intros Ha Hm. apply andb_true_iff in Hm as [Hm _]. exact (judge_cross_once i o Ha Hm).
+Qed.
